@@ -161,7 +161,7 @@ func runMC(ctx *vrun.Ctx, t tier) error {
 	return nil
 }
 
-var reCov = regexp.MustCompile(`(?m)^<(\w+) line \d+, col \d+ to line \d+, col \d+ of module Peer>: (\d+):(\d+)`)
+var reCov = regexp.MustCompile(`(?m)^<(\w+) line \d+, col \d+ to line \d+, col \d+ of module Peer(?: \([\d ]+\))?>: (\d+):(\d+)`)
 
 // actionCounts sums TLC's per-action coverage (distinct states found through
 // the action) over all instances of an action definition; the last coverage
